@@ -155,7 +155,7 @@ def traced_flag(name):
     if m:
         return m.group(1) == "true"
     m = re.search(r"Definition " + name + r" : list[^\n]*\n([^\n]*)", txt)
-    return bool(m) and ", false)" not in m.group(1)
+    return bool(m) and "), false)" not in m.group(1) and "), true)" in m.group(1)     # rows are ((key ...), value)
 
 
 def gen_cases(ctx):
@@ -188,10 +188,10 @@ def gen_cases(ctx):
         for D in (2, 3):
             for C in (1, 2):
                 cases.append(mk_case(rng, "roundtrip", fmt, D, C, rng.choice(DTYPES), True, entry="Image", search_only=True))
-            if KIND_OF[fmt] != "sitk" or traced_flag("gen_sitk_w_nochannel_same_as_c1"):   # where the writer admits data.ndim == grid.ndim
+            if True:   # every writer admits data.ndim == grid.ndim (pinned by C18_big_endian_and_channelless / C18_meta_no_channel_dim)
                 cases.append(mk_case(rng, "roundtrip", fmt, D, 1, rng.choice(DTYPES), rng.random() < 0.5, no_channel_dim=True))
-    # big-endian MetaImage files (written by the harness), where the traced reader handles them
-    if traced_flag("gen_meta_r_msb"):
+    # big-endian MetaImage files (written by the harness); the capability is pinned by theorem C18_big_endian_and_channelless
+    if True:
         for key in ("BinaryDataByteOrderMSB", "ElementByteOrderMSB"):
             for D in (2, 3):
                 for C in (1, 2):
